@@ -7,6 +7,8 @@
 //!    str / reader entry point x miette: no panic, no C0/DEL/C1 in the output, at most five numbered
 //!    source rows around the reported line, the reported line is among them, it is the right text
 //!    cropped to the radius, the caret is under the reported column.
+//!    Scenarios include lines beyond the 4 KiB storage threshold, two-location errors whose definition is on a line with a
+//!    two- / three-digit number, and a reader line longer than the recent-bytes ring; carets are measured in absolute columns.
 use crate::coq;
 use crate::ctx::{Ctx, Rng};
 use crate::docgen::{self, GenCfg};
